@@ -268,7 +268,7 @@ def run(tier, replay):
     for (kind, rt), outs in sorted(groups.items()):
         ctx.add_part("%s %s" % (kind, rt), scenarios=len(outs),
                      rejected_by_tlc=sum(1 for o, _ in rej_all if o["group"] == "%s/%s" % (kind, rt)),
-                     hangs=sum(1 for o in outs if o.get("hang")),
+                     hangs=sum(1 for o in outs if o.get("hang")), not_forceable=sum(1 for o in outs if o.get("diverged")),
                      timed_waits=sum(1 for o in outs if o["verdict"].get("wait_level", 0) > 0))
     for o in (groups[("races", "threaded")][:2] + groups[("matrix", "tokio")][1:2] + groups[("replay", "threaded")][:1]):
         ctx.sample({"scenario": o["scenario"], "rt": o["rt"], "pool": o["nw"], "bind": o["bind"], "verdict": o["verdict"], "log": brief(o["events"])[:900]})
